@@ -365,6 +365,7 @@ func (c *collector) confirmStack(req *Req, rc *replayCase) (bool, error) {
 		f.Size *= 16
 		r = &Req{ID: "scaled", Family: &f, GraceMs: 3000}
 	}
+	r.Only = rc.Call
 	w, res := pool.runCase(nil, r)
 	w.kill()
 	if res.Infra != nil {
